@@ -61,7 +61,15 @@ FAMILIES = {
                TaintKinds=["now"], cfg=dict(min=0, max=3), AsgMin0=0, AsgMax0=3, MaxPend=1, KC=1, KM=1, InitNodes=2),
     # taint / untaint writes that lose a race against another writer (409 Conflict; the other writer set the no-delete annotation)
     "conflict": fam(EnvOn=["Tick", "PodArrive", "PodFinish", "ExtTaint", "ExtUntaint"], FaultOps=["conflict", "update"], MaxFaults=1,
-                    TaintKinds=["now"], cfg=dict(min=0, max=3), AsgMin0=0, AsgMax0=3, MaxPend=1, KC=1, KM=1, InitNodes=2),
+                    TaintKinds=["now"], cfg=dict(min=1, max=3), AsgMin0=0, AsgMax0=3, MaxPend=1, KC=1, KM=1, InitNodes=2),
+    # a group on its minimum with a node older than max_node_age while the load asks for several more nodes
+    "agedup": fam(EnvOn=["Tick", "PodArrive", "PodFinish", "CloudLaunch", "Register"], FaultOps=[], MaxFaults=0, NodeIds=["a1", "a2"],
+                  cfg=dict(min=1, max=4, maxAge=2, cool=1), AsgMin0=1, AsgMax0=4, MaxPend=3, KC=1, KM=1, InitNodes=1),
+    # dry mode with hand-made escalator taints (unreadable value, far future) on nodes the dry run only remembers as tainted
+    "drybad": fam(EnvOn=["Tick", "ExtTaint", "ExtUntaint", "PodArrive", "PodFinish", "InstanceLost", "NodeGone"], TaintKinds=["bad", "future", "now"], cfg=dict(dry=True, min=0), MaxPend=1, KC=1, KM=1),
+    # the cloud replaces instances (lost, relaunched, registered) between force removals
+    "swap": fam(EnvOn=["InstanceLost", "CloudLaunch", "Register", "ExtForce", "NodeGone"], FaultOps=["terminate"], MaxFaults=1, NodeIds=["a1", "a2", "a3"],
+                cfg=dict(min=0, max=3), AsgMin0=0, AsgMax0=3, MaxPend=0, KC=1, KM=1, InitNodes=2),
     # an operator edits the ASG bounds of a group whose min / max are configured (not discovered)
     "asgedit": fam(EnvOn=["Tick", "PodArrive", "PodFinish", "AsgEdit", "CloudLaunch", "Register"],
                    cfg=dict(min=0, max=2), AsgMin0=0, AsgMax0=3, AsgBoundsSet=[[0, 1], [0, 2], [0, 3], [0, 4]], MaxPend=3, InitNodes=1),
@@ -167,7 +175,7 @@ def write_sim_model(d, outdir, depth, name="MCSim"):
     open("%s/%s.cfg" % (outdir, name), "w").write("\n".join(cfg) + "\n")
 
 
-MULTI_CONSTS = ["Gs", "NodeIdsOf", "CfgOf", "AsgMinOf", "DryAll", "AsgMax0", "KC", "KM", "MaxPend", "EnvOn", "FaultOps", "MaxFaults", "InitNodes", "PropIds", "EmitRate"]
+MULTI_CONSTS = ["Gs", "NodeIdsOf", "CfgOf", "AsgMinOf", "AsgMaxOf", "DryAll", "AsgMax0", "KC", "KM", "MaxPend", "EnvOn", "FaultOps", "MaxFaults", "InitNodes", "PropIds", "EmitRate"]
 
 
 def write_model(d, outdir, name="MC", init="Init", next_="Next", view="View"):
@@ -198,8 +206,11 @@ def write_model_multi(d, outdir, name="MC"):
                  " ".join('IF g = "%s" THEN %s ELSE' % (g, tla_value(d["CfgOf"][g])) for g in gs) + " " + tla_value(d["CfgOf"][gs[0]])))
     lines.append("mc_AsgMinOf == [g \\in {%s} |-> %s]" % (", ".join('"%s"' % g for g in gs),
                  " ".join('IF g = "%s" THEN %d ELSE' % (g, d["AsgMinOf"][g]) for g in gs) + " 0"))
+    amax = d.get("AsgMaxOf") or {g: d["AsgMax0"] for g in gs}
+    lines.append("mc_AsgMaxOf == [g \\in {%s} |-> %s]" % (", ".join('"%s"' % g for g in gs),
+                 " ".join('IF g = "%s" THEN %d ELSE' % (g, amax[g]) for g in gs) + " 0"))
     for c in MULTI_CONSTS:
-        if c not in ("Gs", "NodeIdsOf", "CfgOf", "AsgMinOf"):
+        if c not in ("Gs", "NodeIdsOf", "CfgOf", "AsgMinOf", "AsgMaxOf"):
             lines.append("mc_%s == %s" % (c, tla_value(d[c])))
     lines.append("====")
     open("%s/%s.tla" % (outdir, name), "w").write("\n".join(lines) + "\n")
@@ -215,6 +226,8 @@ def multi(**kw):
              AsgMax0=3, KC=1, KM=1, MaxPend=1, EnvOn=[], FaultOps=[], MaxFaults=0, InitNodes=1, PropIds=[], EmitRate=0,
              invariants=["TypeOK", "Emit", "InvIsolation"], workers=16)
     d.update(kw)
+    if not d.get("AsgMaxOf"):
+        d["AsgMaxOf"] = {g: d["AsgMax0"] for g in d["Gs"]}
     return d
 
 
@@ -226,6 +239,11 @@ FAMILIES["multi"]["simulate"] = dict(quick=dict(num=10, depth=30), thorough=dict
 FAMILIES["multidry"] = multi(EnvOn=["Tick", "PodArrive", "PodSchedule", "PodFinish", "ExtTaint", "ExtForce"], FaultOps=[], MaxFaults=0,
                              CfgOf={"a": dict(BASE_CFG, min=0, max=2, dry=True), "default": dict(BASE_CFG, min=0, max=2, lower=20, upper=40, up=70)})
 FAMILIES["multidry"]["simulate"] = dict(quick=dict(num=10, depth=30), thorough=dict(num=150, depth=40))
+# an auto-discovering group whose cloud group is pinned (min = max) in front of another group
+FAMILIES["multipin"] = multi(EnvOn=["Tick", "PodArrive", "PodSchedule", "PodFinish", "ExtTaint"], FaultOps=[], MaxFaults=0,
+                             CfgOf={"a": dict(BASE_CFG, min=0, max=0, auto=True), "default": dict(BASE_CFG, min=0, max=2, lower=20, upper=40, up=70)},
+                             NodeIdsOf={"a": ["a1"], "default": ["d1", "d2"]}, AsgMinOf={"a": 1, "default": 0}, AsgMaxOf={"a": 1, "default": 3})
+FAMILIES["multipin"]["simulate"] = dict(quick=dict(num=6, depth=20), thorough=dict(num=100, depth=40))
 TIER_OVERRIDES[("multidry", "quick")] = dict(NodeIdsOf={"a": ["a1"], "default": ["d1"]})
 
 
